@@ -1,6 +1,7 @@
 package s3api
 
 import (
+	"time"
 	"net/http"
 	"net/url"
 
@@ -131,4 +132,62 @@ func VerifC26_CanDo() {
 	action := []Action{"Read", "Write", "List", "Tagging", "Admin"}[rt.Choice("action", 5)]
 	rt.Cover("evaluated")
 	rt.Assert(id.canDo(action, bucket) == verifAllowed(id, action, bucket), "permission-decision-matches-reference")
+}
+
+// ---- presigned URL validity window (V4): the HMAC chain is replaced by a constant "correct" signature, the
+// clock is symbolic; everything else (query parsing, date / expiry handling, comparisons) is the real code.
+
+//verif:redirect github.com/chrislusf/seaweedfs/weed/s3api.getSignature verifGetSignature
+func verifGetSignature(signingKey []byte, stringToSign string) string { return "goodsig" }
+
+//verif:redirect github.com/chrislusf/seaweedfs/weed/s3api.getSigningKey verifGetSigningKey
+func verifGetSigningKey(secretKey string, t time.Time, region string, service string) []byte { return nil }
+
+//verif:redirect github.com/chrislusf/seaweedfs/weed/s3api.getStringToSign verifGetStringToSign
+func verifGetStringToSign(canonicalRequest string, t time.Time, scope string) string { return "" }
+
+//verif:redirect github.com/chrislusf/seaweedfs/weed/s3api.getCanonicalRequest verifGetCanonicalRequest
+func verifGetCanonicalRequest(extractedSignedHeaders http.Header, payload, queryStr, urlPath, method string) string {
+	return ""
+}
+
+// C26 (presigned URLs): a V4 presigned request is authenticated only while now <= X-Amz-Date + X-Amz-Expires
+// and only with the matching signature, whatever the clock reads.
+func VerifC26_PresignWindow() {
+	iam := &IdentityAccessManagement{}
+	iam.identities = []*Identity{{Name: "u", Credentials: []*Credential{{AccessKey: "AK", SecretKey: "SK"}}, Actions: []Action{"Read"}}}
+	type stamp struct {
+		s    string
+		unix int64
+	}
+	dates := []stamp{{"20200101T000000Z", 1577836800}, {"20240229T235959Z", 1709251199}}
+	d := dates[rt.Choice("date", len(dates))]
+	type expiry struct {
+		s   string
+		sec int64
+	}
+	exps := []expiry{{"0", 0}, {"1", 1}, {"60", 60}, {"604800", 604800}}
+	e := exps[rt.Choice("expires", len(exps))]
+	sig := []string{"goodsig", "badsig"}[rt.Choice("signature", 2)]
+	day := d.s[:8]
+	q := url.Values{}
+	q.Set("X-Amz-Algorithm", "AWS4-HMAC-SHA256")
+	q.Set("X-Amz-Credential", "AK/"+day+"/us-east-1/s3/aws4_request")
+	q.Set("X-Amz-Date", d.s)
+	q.Set("X-Amz-Expires", e.s)
+	q.Set("X-Amz-SignedHeaders", "host")
+	q.Set("X-Amz-Signature", sig)
+	r := &http.Request{Method: "GET", Host: "h", Header: http.Header{}, URL: &url.URL{Path: "/b/o", RawQuery: q.Encode()}}
+	t0 := rt.Now().Unix()
+	ident, code := iam.doesPresignedSignatureMatch("UNSIGNED-PAYLOAD", r)
+	t1 := rt.Now().Unix()
+	if code == s3err.ErrNone {
+		rt.Cover("presigned-accepted")
+		rt.Assert(ident != nil && ident.Name == "u", "presigned-identity-is-the-signer")
+		rt.Assert(sig == "goodsig", "presigned-wrong-signature-refused")
+		// accepted at some instant in [t0,t1]: the whole second t0 must not lie past the expiry
+		rt.Assert(t0 <= d.unix+e.sec, "presigned-expired-url-refused")
+	} else if sig == "goodsig" && t1 <= d.unix+e.sec-1 && t0 >= d.unix {
+		rt.Assert(false, "presigned-valid-url-accepted")
+	}
 }
